@@ -98,14 +98,24 @@ def project(obj, codec):
             rv = [[as_int(k), codec.spec(v)] for k, v in obj.reverse_mapping.items()]
         except Exception:
             mp, rv = [["?", BAD]], []
-    anc, ncons = 0, 0
+    anc, ncons, cons = 0, 0, []
     if kind in CONSTR:
         try:
             anc = as_int(obj.num_ancillas)
-            ncons = sum(len(v) for v in obj.constraints.values())
+            cd = obj.constraints
+            ncons = sum(len(v) for v in cd.values())
+            for rel in sorted(cd):
+                for p in cd[rel]:
+                    cons.append([rel, [[[codec.spec(x) for x in k], as_int(v)] for k, v in dict.items(p)]])
         except Exception:
-            anc, ncons = BAD, BAD
-    return {"kind": kind, "ts": ts, "vars": vs, "nvars": nv, "deg": deg, "map": mp, "rev": rv, "anc": anc, "ncons": ncons}
+            anc, ncons, cons = BAD, BAD, []
+    try:
+        name = obj.name
+        name = "" if name is None else repr(name)
+    except Exception:
+        name = "?"
+    return {"kind": kind, "ts": ts, "vars": vs, "nvars": nv, "deg": deg, "map": mp, "rev": rv, "anc": anc, "ncons": ncons,
+            "cons": cons, "name": name}
 
 
 def anc_indices(obj):
@@ -126,6 +136,7 @@ class ModelReplayer:
         self.cls = classes()
         self.codec = codec
         self.slots = {i + 1: self.cls[k]() for i, k in enumerate(kinds)}
+        self.slots[1].name = "n1"
         self.kinds = list(kinds)
 
     def key(self, k):
@@ -144,9 +155,11 @@ class ModelReplayer:
         return [project(self.slots[1], self.codec), project(self.slots[2], self.codec)]
 
     def apply(self, op):
+        op = [list(x[1]) if isinstance(x, tuple) and len(x) == 2 and x[0] == "set" else x for x in op]   # TLA+ sets -> lists
         name, a = op[0], op[1:]
         sl = self.slots
         raised, out, new_anc, cert_z = "", [], [], []
+        values, info_equal = [], True
         before_anc = anc_indices(sl[a[0]]) if name == "addcons" else set()
         try:
             with warnings.catch_warnings():
@@ -201,6 +214,42 @@ class ModelReplayer:
                     rel, P = table[v]
                     getattr(obj, "add_constraint_%s_zero" % rel)(P, lam=2)
                     new_anc = sorted(anc_indices(obj) - before_anc)
+                elif name == "bin":
+                    s_, nm_, j_, lit_, d_, refl_ = a
+                    left, right = sl[s_], self.operand(j_, lit_)
+                    if refl_:
+                        left, right = right, left
+                    res = left + right if nm_ == "add" else (left - right if nm_ == "sub" else left * right)
+                    sl[d_] = res
+                elif name == "binscalar":
+                    s_, nm_, c_, d_, refl_ = a
+                    left, right = sl[s_], c_
+                    if refl_:
+                        left, right = right, left
+                    res = left + right if nm_ == "add" else (left - right if nm_ == "sub" else left * right)
+                    sl[d_] = res
+                elif name == "neg":
+                    sl[a[1]] = -sl[a[0]]
+                elif name == "pow":
+                    sl[a[2]] = sl[a[0]] ** a[1]
+                elif name == "div":
+                    sl[a[2]] = sl[a[0]] / a[1]
+                elif name == "mulraise":
+                    res = sl[a[0]] * self.operand(a[1], a[2])
+                    sl[a[3]] = res                     # only reached if no KeyError was raised
+                elif name == "value":
+                    obj = sl[a[0]]
+                    values = self.evaluate(obj, a[1])
+                elif name == "poke":
+                    self.poke(sl[a[0]])
+                elif name == "ctor":
+                    sl[a[1]] = type(sl[a[0]])(sl[a[0]])
+                elif name == "info":
+                    from qubovert.utils import get_info, create_from_info
+                    i1 = get_info(sl[a[0]])
+                    new = create_from_info(i1)
+                    info_equal = bool(get_info(new) == get_info(sl[a[0]]))
+                    sl[a[1]] = new
                 elif name == "toenum":
                     obj = sl[a[0]]
                     import os
@@ -226,12 +275,66 @@ class ModelReplayer:
             raise
         except Exception as e:                  # noqa: the exception is the observation
             raised = type(e).__name__
-        return {"op": list(op), "raised": raised, "slots": self.snapshot(), "out": out, "new_anc": new_anc, "cert_z": cert_z}
+        return {"op": list(op), "raised": raised, "slots": self.snapshot(), "out": out, "new_anc": new_anc, "cert_z": cert_z,
+                "values": values, "info_equal": info_equal}
+
+
+def _evaluate(self, obj, ones):
+    """every public way of evaluating `obj` at the assignment where the labels in `ones` are 1 (boolean) / -1 (spin)"""
+    from qubovert import utils
+    kind = type(obj).__name__
+    spin = kind in SPIN
+    ones = set(self.codec.py(x) for x in ones)
+    labels = set(self.codec.to_py.values()) | set(obj.variables)
+    sol = {l: ((-1 if l in ones else 1) if spin else (1 if l in ones else 0)) for l in labels}
+    vals = [obj.value(sol)]
+    fn = {"QUBO": utils.qubo_value, "QUSO": utils.quso_value, "PUBO": utils.pubo_value, "PUSO": utils.puso_value,
+          "PCBO": utils.pubo_value, "PCSO": utils.puso_value, "QUBOMatrix": utils.qubo_value, "QUSOMatrix": utils.quso_value,
+          "PUBOMatrix": utils.pubo_value, "PUSOMatrix": utils.puso_value}[kind]
+    vals.append(fn(sol, obj))
+    vals.append(fn(sol, dict(obj)))
+    if kind in ("QUBO", "QUBOMatrix"):
+        vals.append(utils.pubo_value(sol, obj))
+    if kind in ("QUSO", "QUSOMatrix"):
+        vals.append(utils.puso_value(sol, obj))
+    if kind not in LABELLED and all(isinstance(l, int) for l in labels) and labels:
+        n = max(labels) + 1
+        seq = [((-1 if i in ones else 1) if spin else (1 if i in ones else 0)) for i in range(n)]
+        vals.append(obj.value(seq))
+        vals.append(fn(tuple(seq), obj))
+    return [as_int(v) for v in vals]
+
+
+def _poke(self, obj):
+    """fetch every copy-returning property and mutate what comes back; the model must not notice"""
+    kind = type(obj).__name__
+    v = obj.variables
+    v.add("__poked__")
+    if kind in LABELLED:
+        m = obj.mapping
+        m["__poked__"] = 99
+        for k in list(m):
+            m[k] = 77
+        r = obj.reverse_mapping
+        r[99] = "__poked__"
+        r.clear()
+    if kind in CONSTR:
+        c = obj.constraints
+        for rel, ps in c.items():
+            for p in ps:
+                p[("__poked__",)] = 5
+            ps.append({("__poked__",): 1})
+        c["zz"] = []
+
+
+ModelReplayer.evaluate = _evaluate
+ModelReplayer.poke = _poke
 
 
 def replay(ops_list, kinds, codec):
     traces = []
     for tid, ops in enumerate(ops_list, 1):
         rp = ModelReplayer(kinds, codec)
-        traces.append({"tid": tid, "kinds": list(kinds), "steps": [rp.apply(op) for op in ops]})
+        names = [project(rp.slots[1], codec)["name"], project(rp.slots[2], codec)["name"]]
+        traces.append({"tid": tid, "kinds": list(kinds), "names": names, "steps": [rp.apply(op) for op in ops]})
     return traces
